@@ -389,8 +389,9 @@ def sweeps(tier, rng):
     def run_gvar():
         from fontTools.ttLib.tables.TupleVariation import TupleVariation, compileTupleVariationStore, decompileTupleVariationStore
         counts = [1, 2, 126, 127, 128, 129, 130, 255, 256, 257, 300] + [rng.randint(1, 300) for _ in range(n // 10)]
-        for npt in counts:
-            total = max(npt + rng.choice([0, 1, 5, 50]), npt)
+        for ci, npt in enumerate(counts):
+            # the listed boundary counts always come with more points than are named explicitly (otherwise the set is written as "all points")
+            total = npt + (rng.choice([1, 5, 50]) if ci < 11 else rng.choice([0, 1, 5, 50]))
             for shared in (False, True):
                 idx = sorted(rng.sample(range(total), npt))
                 vs = []
